@@ -311,9 +311,33 @@ def py_parse(data):
         return None
 
 
+def rust_debug_escape(text):
+    """<str as Debug> escaping (str::escape_debug) for the characters that can occur here."""
+    out = []
+    for ch in text:
+        o = ord(ch)
+        if ch == "\\":
+            out.append("\\\\")
+        elif ch == '"':
+            out.append('\\"')
+        elif ch == "\t":
+            out.append("\\t")
+        elif ch == "\n":
+            out.append("\\n")
+        elif ch == "\r":
+            out.append("\\r")
+        elif ch == "\0":
+            out.append("\\0")
+        elif o < 0x20 or o == 0x7F:
+            out.append("\\u{%x}" % o)
+        else:
+            out.append(ch)
+    return "".join(out)
+
+
 def fmt_expected(d):
     def esc(b):
-        return b.decode("latin-1").replace("\\", "\\\\").replace('"', '\\"').replace("\t", "\\t")
+        return rust_debug_escape(b.decode("latin-1"))
     hs = ", ".join('Header { name: %s, value: "%s" }' % (n, esc(v)) for n, v in d["headers"])
     hx = lambda b: b.hex() if b else "-"
     return "OK %s|%s|%s|%s|Headers([%s])|%s" % (d["method"].capitalize(), hx(d["uri"]), hx(d["query"]), hx(d["version"]), hs, "none" if d["body"] is None else hx(d["body"]))
@@ -333,7 +357,7 @@ def fmt_engine(ex, val):
     for h in ex.elements(headers[1][0]):
         n, v = h[1]
         variant = n[1].split("::")[-1]
-        hs.append((variant if variant != "Custom" else 'Custom("%s")' % sb(n[2][0]).decode("latin-1"), sb(v)))
+        hs.append((variant if variant != "Custom" else 'Custom("%s")' % rust_debug_escape(sb(n[2][0]).decode("latin-1")), sb(v)))
     body = None if content[1] == "None" else bytes(ci(c) for c in ex.elements(content[2][0]))
     return fmt_expected({"method": method[1].split("::")[-1], "uri": sb(uri), "query": sb(query), "version": sb(version), "headers": hs, "body": body})
 
